@@ -216,10 +216,25 @@ func run(ctx *bex.Ctx) {
 						ctx.Violate("a concurrent evaluation returns an outcome different from its isolated evaluation", rp, want, o, finding)
 					}
 				}
-				if t := st.FirstRace(); t != nil {
-					rp := copyMap(repro)
-					rp["schedule"] = t.Choices
-					ctx.Violate("data race on state shared through the generated function (happens-before, vector clocks)", rp, "no conflicting accesses unordered by happens-before", t.Race, classifyRace(t.Race))
+				{
+					byFinding := map[string][]string{}
+					sched := map[string][]int{}
+					for line, choices := range st.RaceLines() {
+						f := classifyRace(line)
+						byFinding[f] = append(byFinding[f], line)
+						if old, ok := sched[f]; !ok || len(choices) < len(old) {
+							sched[f] = choices
+						}
+					}
+					for f, lines := range byFinding {
+						sort.Strings(lines)
+						rp := copyMap(repro)
+						rp["schedule"] = sched[f]
+						if len(lines) > 3 {
+							lines = lines[:3]
+						}
+						ctx.Violate("data race on state shared through the generated function (happens-before, vector clocks)", rp, "no conflicting accesses unordered by happens-before", strings.Join(lines, "\n"), f)
+					}
 				}
 				if t := st.FirstDeadlock(); t != nil {
 					ctx.Violate("deadlock", repro, "all evaluations return", t.Leaks, "")
@@ -251,7 +266,7 @@ func main() {
 	bex.Main(&bex.Check{
 		ID:    "C11",
 		Level: "model_checking",
-		Rule: "each scenario is one program generated freshly inside every execution and evaluated by T vthreads at once under the controlled scheduler; every access to the fields items/itemsPresent/iterable/size of value.List is a scheduling point and a race-checked access; ALL interleavings are explored (history-key pruning; what a vthread reads from a hooked field enters its history as the identity of the write it observed); evaluations = scenarios, distinct_nontrivial = scenarios with more than 50 states",
+		Rule:  "each scenario is one program generated freshly inside every execution and evaluated by T vthreads at once under the controlled scheduler; every access to the fields items/itemsPresent/iterable/size of value.List is a scheduling point and a race-checked access; ALL interleavings are explored (history-key pruning; what a vthread reads from a hooked field enters its history as the identity of the write it observed); evaluations = scenarios, distinct_nontrivial = scenarios with more than 50 states",
 		Assumptions: []string{"the only state shared between concurrent evaluations of one function are its folded constants (lists, maps, closures) and the generator; value-stack slots are private per Eval and are race-checked as in C06",
 			"sequentially consistent interleavings at field granularity; weak-memory effects of a racy program are out of reach, which is why the race itself is the reported violation",
 			"value.New() (which rewrites the package-level type ids) is not run concurrently"},
